@@ -9,8 +9,9 @@
 #include "cpgm.h"
 #include <map>
 
-extern "C" int omp_get_num_procs(void) noexcept { return 1; }
-extern "C" int omp_get_max_threads(void) noexcept { return 1; }
+static int g_chunks = 1;
+extern "C" int omp_get_num_procs(void) noexcept { return g_chunks; }
+extern "C" int omp_get_max_threads(void) noexcept { return g_chunks; }
 
 #ifdef VERIF_ASAN
 extern "C" void __asan_on_error() {
@@ -93,6 +94,26 @@ void reserved_c(Ctx &c, const char *type, int palette_id, int len, int first, Cr
         }
         return !c.run.deadline_passed();
     });
+}
+
+// the same for inputs large enough to be segmented in chunks (n around 2^15, 1..20 construction threads)
+template<typename K, typename Make>
+void reserved_large(Ctx &c, const char *cls, Make make) {
+    for (size_t n : {size_t(32767), size_t(32768), size_t(40000)})
+        for (int p : {1, 2, 7, 20})
+            for (int copies = 0; copies <= 2; ++copies) {
+                std::vector<K> data(n);
+                for (size_t i = 0; i < n; ++i) data[i] = K(10 + 3 * i);
+                for (int j = 0; j < copies; ++j) data[n - 1 - j] = ks::reserved<K>();
+                std::string cs = std::string("part=reserved_large class=") + cls + " n=" + std::to_string(n) + " threads=" + std::to_string(p) + " reserved_copies=" + std::to_string(copies);
+                c.run.set_case(cs); c.run.add(c.cn.cases);
+                g_chunks = p;
+                std::string what;
+                Outcome o = outcome_of([&] { make(data); }, &what);
+                g_chunks = 1;
+                if (copies == 0) { c.run.add(c.cn.valid); if (o != ACCEPTED) c.run.violation(cs, std::string("valid data was rejected with ") + oname(o) + ": " + what); }
+                else { c.run.add(c.cn.invalid); if (o != INVALID_ARGUMENT) c.run.violation(cs, std::string("data containing the reserved value: expected std::invalid_argument, got ") + oname(o)); }
+            }
 }
 
 // ---- 2-5. DynamicPGMIndex ----------------------------------------------------------------------------------------------------------
@@ -295,6 +316,7 @@ int main(int argc, char **argv) {
     // part 1: sub 0..: static classes
     const int NSUB = 14;
     if (want("reserved")) for (int sub = 0; sub < NSUB; ++sub) for (int len = 1; len <= N; ++len) for (int p = 0; p < 3; ++p) for (int f = 0; f < 10; ++f) tasks.push_back({1, sub, p, len, f});
+    if (want("reserved_large")) for (int sub = 0; sub < 6; ++sub) tasks.push_back({7, sub, 0, 0, 0});
     if (want("base")) tasks.push_back({2, 0, 0, 0, 0});
     if (want("bulk")) { tasks.push_back({3, 0, 0, 0, 0}); tasks.push_back({3, 1, 0, 0, 0}); }
     if (want("tombstone")) for (int cfg = 0; cfg < 3; ++cfg) for (int f = 0; f < 6; ++f) tasks.push_back({4, cfg, 0, 0, f});
@@ -328,6 +350,15 @@ int main(int argc, char **argv) {
                 case 12: reserved_c<uint32_t>(c, "uint32", t.palette, t.len, t.first, pgm_index_uint32_create, pgm_index_uint32_destroy); break;
                 case 13: reserved_c<uint64_t>(c, "uint64", t.palette, t.len, t.first, pgm_index_uint64_create, pgm_index_uint64_destroy); break;
             }
+        } else if (t.part == 7) {
+            switch (t.sub) {
+                case 0: reserved_large<uint64_t>(c, "PGMIndex<u64,4,2>", [](const std::vector<uint64_t> &d) { pgm::PGMIndex<uint64_t, 4, 2> x(d.begin(), d.end()); }); break;
+                case 1: reserved_large<int32_t>(c, "PGMIndex<i32,1,0>", [](const std::vector<int32_t> &d) { pgm::PGMIndex<int32_t, 1, 0> x(d.begin(), d.end()); }); break;
+                case 2: reserved_large<uint32_t>(c, "Bucketing<u32,4,16,32>", [](const std::vector<uint32_t> &d) { pgm::BucketingPGMIndex<uint32_t, 4, 16, 32> x(d.begin(), d.end()); }); break;
+                case 3: reserved_large<uint64_t>(c, "EliasFano<u64,4>", [](const std::vector<uint64_t> &d) { pgm::EliasFanoPGMIndex<uint64_t, 4> x(d.begin(), d.end()); }); break;
+                case 4: reserved_large<uint64_t>(c, "Compressed<u64,4,2>", [](const std::vector<uint64_t> &d) { pgm::CompressedPGMIndex<uint64_t, 4, 2> x(d.begin(), d.end()); }); break;
+                case 5: reserved_large<uint64_t>(c, "c_uint64", [](const std::vector<uint64_t> &d) { auto *p = pgm_index_uint64_create(d.data(), d.size(), 4); if (!p) throw std::invalid_argument("NULL"); pgm_index_uint64_destroy(p); }); break;
+            }
         } else if (t.part == 2) dynamic_bases(c);
         else if (t.part == 3) { if (t.sub == 0) dynamic_bulk<Dyn, uint32_t>(c, "u32", thorough ? 5 : 4); else dynamic_bulk<DynI64, int64_t>(c, "i64", thorough ? 5 : 4); }
         else if (t.part == 4) { static const uint8_t cfgs[3][3] = {{2, 1, 2}, {4, 1, 2}, {8, 0, 0}}; dynamic_tombstone(c, D, t.first, cfgs[t.sub][0], cfgs[t.sub][1], cfgs[t.sub][2]); }
@@ -345,7 +376,7 @@ int main(int argc, char **argv) {
     run.sample("part=builder x_type=u64 eps=1 xs=0,1,1,2");
     mc::Run::EvidenceExtra ev;
     ev.states_counter = "distinct_cases"; ev.transitions_counter = "invalid_inputs_checked_to_be_rejected"; ev.nontrivial_counter = "invalid_inputs_checked_to_be_rejected"; ev.eval_counter = "valid_neighbour_inputs_checked_to_be_accepted";
-    ev.rule = "every sorted array of length 1.." + std::to_string(N) + " over three palettes with 1..3 copies of the reserved value appended (numeric max, +infinity for floating keys) must make PGMIndex, CompressedPGMIndex, BucketingPGMIndex, EliasFanoPGMIndex, MappedPGMIndex (range and raw-file constructors) throw std::invalid_argument and the four C create functions return NULL, while the same array without it is accepted; "
+    ev.rule = "every sorted array of length 1.." + std::to_string(N) + " over three palettes with 1..3 copies of the reserved value appended (numeric max, +infinity for floating keys) must make PGMIndex, CompressedPGMIndex, BucketingPGMIndex, EliasFanoPGMIndex, MappedPGMIndex (range and raw-file constructors) throw std::invalid_argument and the four C create functions return NULL, while the same array without it is accepted; the same with 32767/32768/40000-key inputs and 1..20 construction threads (chunked segmentation); "
               "DynamicPGMIndex: every base 2..255 through three constructors (reject iff not a power of two); every sequence of <= " + std::to_string(thorough ? 5 : 4) + " bulk-load keys over 4 values (reject iff an inversion exists); every history of depth <= " + std::to_string(D) +
               " over 3 keys with the reserved mapped value offered for 4 keys at every point (must throw and leave canonical state and all answers unchanged) and lo>hi ranges tried at every point; MultidimensionalPGMIndex: every point position x dimension with the coordinate at the first too-wide value and above (reject) and just below (accept); "
               "builder: every add_point sequence of length <= 4 over 3 x-values, epsilon 0/1 (std::logic_error exactly when x does not exceed its predecessor inside a segment), negative epsilon on a signed rank type. State = one case; non-trivial = an invalid input that must be rejected.";
